@@ -159,15 +159,15 @@ func (in *tbInst) setup(cfgID int) error {
 		return fmt.Errorf("unknown table configuration %d", cfgID)
 	}
 	in.cfgID, in.cfg = cfgID, cfgs[cfgID-1]
-	in.tables[0] = table.New(in.rec, decKey(in.cfg.P1))
+	in.tables[0] = table.New(in.rec, spare(decKey(in.cfg.P1)))
 	if in.cfg.Nested {
 		p1, p2 := decKey(in.cfg.P1), decKey(in.cfg.P2)
 		if !hasPrefix(p2, p1) {
 			return fmt.Errorf("nested configuration %d: %q is not an extension of %q", cfgID, in.cfg.P2, in.cfg.P1)
 		}
-		in.tables[1] = in.tables[0].NewTable(p2[len(p1):])
+		in.tables[1] = in.tables[0].NewTable(spare(p2[len(p1):]))
 	} else {
-		in.tables[1] = table.New(in.rec, decKey(in.cfg.P2))
+		in.tables[1] = table.New(in.rec, spare(decKey(in.cfg.P2)))
 	}
 	return nil
 }
@@ -228,22 +228,25 @@ func (in *tbInst) build(state map[string]interface{}) error {
 func (in *tbInst) Apply(act map[string]interface{}) (map[string]interface{}, error) {
 	in.rec.writes = nil
 	t := num(act["t"])
-	k := decKey(str(act["k"]))
+	k := spare(decKey(str(act["k"])))
+	v := spare(decVal(str(act["v"])))
+	defer scribble(k) // caller-owned buffers are reused once the call has returned
+	defer scribble(v)
 	var err error
 	switch str(act["op"]) {
 	case "tput":
-		err = in.tables[t-1].Put(k, decVal(str(act["v"])))
+		err = in.tables[t-1].Put(k, v)
 	case "tdel":
 		err = in.tables[t-1].Delete(k)
 	case "rput":
-		err = in.rec.Put(k, decVal(str(act["v"])))
+		err = in.rec.Put(k, v)
 	case "rdel":
 		err = in.rec.Delete(k)
 	case "tbput":
 		if in.batch == nil {
 			in.batch = in.tables[t-1].NewBatch()
 		}
-		err = in.batch.Put(k, decVal(str(act["v"])))
+		err = in.batch.Put(k, v)
 	case "tbdel":
 		if in.batch == nil {
 			in.batch = in.tables[t-1].NewBatch()
